@@ -147,3 +147,16 @@ Proof.
   eapply hp_label; [reflexivity|reflexivity|].
   apply hp_end; [reflexivity|reflexivity|]. left. split; reflexivity.
 Qed.
+
+(* Crash NoHandler is not vacuous: the same module with the entry block inserted as [10..) instead of
+   [0..) (no block covers the top-level code): the checker rejects it, and a fault raised by the
+   top-level CALL at address 5 finds no table entry *)
+Definition ex_exct_bad : list (nat * nat) := [(10, 20); (22, 27); (28, 31)].
+
+Lemma ex_bad_rejected : check_all ex_prog ex_exct_bad ex_metas ex_entry ex_certs = false.
+Proof. vm_compute. reflexivity. Qed.
+
+Lemma ex_bad_no_handler :
+  Shape.run (code ex_prog) (handler ex_exct_bad) (np ex_metas) (is_entry ex_metas) ex_entry init
+            [(1, 0); (2, 5); (3, 5); (4, 6); (5, 6); (99, 5)] = Crash NoHandler.
+Proof. vm_compute. reflexivity. Qed.
